@@ -179,6 +179,19 @@ CLAIMED = {
         note="Trusted: TLC; lanes reduced modulo each prime by the harness (Python %). Operands are sampled (2^256 combinations); the "
              "kernels have no data-dependent branch.",
         technique="TLA+ definitions in residue arithmetic + TLC trace validation of recorded kernel calls"),
+    "C14": dict(
+        category="exploration",
+        text="The contracts of the property are written in TLA+ on exact dyadic rationals (Dyadic.tla over Wide integers; no float "
+             "arithmetic in the specification): exactness of int64/int32->double, |r*d - x| <= d/2 for double->int64 on the 2^50 and "
+             "2^52 domains, nearest integer modulo 2^32 for complex->torus32, x/d minus a nearest integer within 2^(ovh-50) for "
+             "double->torus double. Every conversion x {reference, AVX variants called directly, dispatch under both CPU masks, "
+             "*_simple} x m = 1..64 (thorough 1024) x divisors 2^j x log2overhead 0..48 x bounds is driven with magnitudes at and "
+             "next to the domain boundaries, halves +- 1 and 2 ulp, exact ties, INT32_MIN/MAX and random values; TLC judges every "
+             "element from the logged IEEE / two's-complement words.",
+        design_ref="DESIGN.md section 4 C14",
+        note="Trusted: TLC + Wide/Dyadic. 2^64 inputs per conversion are sampled, boundary directed. Exact ties accept either "
+             "neighbour; for the torus conversion the tolerance also applies to the choice of the nearest integer.",
+        technique="TLA+ contracts on exact dyadic arithmetic + TLC trace validation of recorded conversions"),
 }
 
 NOT_YET = "check not built yet in this session (planned, see DESIGN.md section 8)"
